@@ -23,11 +23,23 @@ pub struct Cfg {
     pub max_nodes: usize,
     pub fault_permille: u32,
     pub obs_seed: u64,
+    /// how the empty wrapper is made: 0 `Acyclic::new()`, 1 `Default`, 2 `Create::with_capacity`
+    /// with the two numbers below (more nodes than edges and the other way round both occur)
+    #[serde(default)]
+    pub create: u8,
+    #[serde(default)]
+    pub cap_nodes: usize,
+    #[serde(default)]
+    pub cap_edges: usize,
+    /// number of nodes added in one go at the start (0 = none): graphs of many hundred nodes
+    #[serde(default)]
+    pub bulk: usize,
 }
 
 #[derive(Clone, Debug, Serialize, Deserialize)]
 pub enum Op {
     AddNode,
+    BulkNodes(usize),
     /// mode: 0 try_add_edge, 1 try_update_edge, 2 Build::add_edge, 3 Build::update_edge
     AddEdge { a: usize, b: usize, mode: u8 },
     RemoveEdge(usize),
@@ -52,6 +64,7 @@ impl Op {
             Op::IsValidEdge(..) => ("is_valid_edge", 7),
             Op::TryFrom { .. } => ("try_from_graph", 8),
             Op::Clone => ("clone", 9),
+            Op::BulkNodes(_) => ("bulk_add_nodes", 10),
         }
     }
 }
@@ -75,15 +88,21 @@ impl History for AcyclicEngine {
     }
     fn gen_cfg(&self, rng: &mut Rng, tier: Tier) -> (Cfg, usize) {
         let base = if tier == Tier::Thorough { 30 } else { 20 };
+        let width = Width::pick(rng);
+        let bulk = if rng.chance(1, 70) { if width == Width::U8 { *rng.pick(&[70usize, 130, 200]) } else { *rng.pick(&[70usize, 300, 1030, 1100, 1500]) } } else { 0 };
         (
             Cfg {
                 stable: self.stable,
-                width: Width::pick(rng),
-                max_nodes: *rng.pick(&[3usize, 5, 8, 8, 12, 20]),
+                width,
+                max_nodes: if bulk > 0 { bulk + 8 } else { *rng.pick(&[3usize, 5, 8, 8, 12, 20]) },
                 fault_permille: *rng.pick(&[0u32, 100, 300]),
                 obs_seed: rng.next_u64(),
+                create: *rng.pick(&[0u8, 0, 1, 2, 2]),
+                cap_nodes: rng.below(12),
+                cap_edges: rng.below(12),
+                bulk,
             },
-            rng.geometric(1, base, 70),
+            if bulk > 0 { rng.range(8, 30) } else { rng.geometric(1, base, 70) },
         )
     }
     fn execute(&self, cfg: &Cfg, feed: OpFeed<Op>, acc: &mut Acc, ops: &mut Vec<Op>) -> Exec {
@@ -147,6 +166,9 @@ fn model_acyclic_edges(n: usize, edges: &[(usize, usize)]) -> bool {
 
 fn gen_op(rng: &mut Rng, cfg: &Cfg, m: &AdjModel, last_refused: Option<(usize, usize)>) -> Op {
     let live = m.live_nodes();
+    if cfg.bulk > 0 && m.nodes.is_empty() {
+        return Op::BulkNodes(cfg.bulk);
+    }
     let node = |rng: &mut Rng| -> usize { live[rng.below(live.len())] };
     let absent = |rng: &mut Rng| -> usize {
         let vac = m.vacant_nodes();
@@ -268,7 +290,11 @@ macro_rules! acyclic_runner {
         fn $fname<Ix: IndexType>(name: &'static str, cfg: &Cfg, mut feed: OpFeed<Op>, acc: &mut Acc, ops: &mut Vec<Op>) -> Exec {
             type G<Ix> = $G<u32, u32, Ix>;
             let max_index = <Ix as IndexType>::max().index();
-            let mut ac: Acyclic<G<Ix>> = Acyclic::new();
+            let mut ac: Acyclic<G<Ix>> = match cfg.create {
+                1 => Default::default(),
+                2 => <Acyclic<G<Ix>> as petgraph::data::Create>::with_capacity(cfg.cap_nodes, cfg.cap_edges),
+                _ => Acyclic::new(),
+            };
             let mut m = AdjModel::new($compact, true, max_index);
             let mut next_w = 100u32;
             let ni = |i: usize| NodeIndex::<Ix>::new(i.min(max_index));
@@ -319,6 +345,24 @@ macro_rules! acyclic_runner {
                                 Err(p) => return st.fail(kind, "panic", format!("add_node panicked: {}", p)),
                             }
                         }
+                    }
+                    Op::BulkNodes(k) => {
+                        for _ in 0..(*k).min(1600) {
+                            if m.n_live() >= max_index.saturating_sub(1) {
+                                break;
+                            }
+                            let w = fresh();
+                            match catch(|| Build::add_node(&mut ac, w).index()) {
+                                Ok(i) => {
+                                    if m.node(i).is_some() || i > m.nodes.len() {
+                                        return st.fail(kind, "index", format!("add_node returned index {} ({} slots, live: {})", i, m.nodes.len(), m.node(i).is_some()));
+                                    }
+                                    m.insert_node(i, w);
+                                }
+                                Err(p) => return st.fail(kind, "panic", format!("add_node panicked with {} nodes: {}", m.n_live(), p)),
+                            }
+                        }
+                        acc.probe_if(m.n_live() > 1024, "acyclic_more_than_1024_nodes");
                     }
                     Op::AddEdge { a, b, mode } => {
                         let (a, b) = (*a, *b);
